@@ -427,12 +427,25 @@ def rebuilt(kind):
             GradientNormTolerance=lambda: T.GradientNormTolerance(0.5, 1),
             EvaluationLimits=lambda: T.EvaluationLimits(3, 7),
         )
+        import numpy as _np
+        mk.update({
+            # settings computed with numpy (numpy >= 2 prints them as np.float64(...) in the condition's doc string)
+            'VTR/numpy-scalars': lambda: T.VTR(_np.float64(0.25), _np.float64(1.5)),
+            'ChangeOverGeneration/numpy-scalars': lambda: T.ChangeOverGeneration(_np.float64(0.125), _np.int64(2)),
+            'CandidateRelativeTolerance/numpy-scalars': lambda: T.CandidateRelativeTolerance(_np.float64(0.5), _np.float32(0.75)),
+            'EvaluationLimits/numpy-scalars': lambda: T.EvaluationLimits(_np.int64(3), _np.int64(7)),
+        })
         c = mk[kind]()
-        st = T.state(c)
         doc = c.__doc__
-        c2 = T.type(c)(**st[doc])
+        try:
+            st = T.state(c)
+            c2 = T.type(c)(**st[doc])
+        except Exception as e:
+            # the condition cannot be rebuilt from its own reported state
+            ctx.note('rebuild raised %s: %s' % (type(e).__name__, e))
+            return [('condition-can-be-rebuilt-from-its-state', const(False))]
         r1, r2 = truth(c(inst)), truth(c2(inst))
-        return [('state-has-own-doc', const(list(st.keys()) == [doc])), ('rebuilt-same-doc', const(c2.__doc__ == doc)),
+        return [('condition-can-be-rebuilt-from-its-state', const(True)), ('state-has-own-doc', const(list(st.keys()) == [doc])), ('rebuilt-same-doc', const(c2.__doc__ == doc)),
                 ('rebuilt-same-verdict', const(r1 == r2))]
     return h
 
@@ -464,6 +477,7 @@ def instances(tier, seed):
         out.append(Instance('compound/%s' % _name(t), compound(t)))
     for kind in ('VTR', 'ChangeOverGeneration', 'NormalizedChangeOverGeneration', 'CandidateRelativeTolerance',
                  'SolutionImprovement', 'NormalizedCostTarget', 'VTRChangeOverGeneration', 'PopulationSpread',
-                 'GradientNormTolerance', 'EvaluationLimits'):
+                 'GradientNormTolerance', 'EvaluationLimits', 'VTR/numpy-scalars', 'ChangeOverGeneration/numpy-scalars',
+                 'CandidateRelativeTolerance/numpy-scalars', 'EvaluationLimits/numpy-scalars'):
         out.append(Instance('rebuilt/%s' % kind, rebuilt(kind)))
     return out
